@@ -360,6 +360,10 @@ func (t *twin) one(r *vh.Run, c c15Case) {
 			logErr = hl.ModifyRequest(reqB)
 		}
 	case "marbl":
+		if c.Skip && !t.e.flushMarbl() { // frames of earlier cases may still be in flight
+			inconc("marbl stream did not flush the sentinel within the watchdog")
+			return
+		}
 		frameFrom = t.e.sink.count()
 		if c.Resp {
 			logErr = t.e.marbl.ModifyResponse(resB)
@@ -520,7 +524,18 @@ func (t *twin) checkSnapshot(r *vh.Run, c c15Case, s *msgx.Spec, mv *messageview
 		}
 	}
 	if err != nil {
-		viol("C15:snapshot-parse:"+s.FramingClass(), "the snapshot is not a parseable HTTP message: "+err.Error())
+		// The known defect gets its own signature: everything of a chunked message
+		// with (declared) trailers is there, body and trailer fields intact, and
+		// only the empty line that ends the trailer section is missing. Any other
+		// way of not parsing is a different signature.
+		sig := "C15:snapshot-parse:other/" + s.FramingClass()
+		if s.Framing == "chunked" && len(s.Trailers) > 0 && s.Declared && p != nil &&
+			strings.Contains(err.Error(), "unexpected EOF in trailer section (no terminating empty line)") &&
+			bytes.Equal(p.Body, s.WireBody()) &&
+			msgx.DiffByName(msgx.ByName(p.Trailers, nil), msgx.ByName(s.Trailers, nil)) == "" {
+			sig = "C15:snapshot-parse:chunked+trailers"
+		}
+		viol(sig, "the snapshot is not a parseable HTTP message: "+err.Error())
 		return
 	}
 	r.Count("snapshots_reparsed", 1)
@@ -749,6 +764,10 @@ func (p *proxyRun) one(r *vh.Run, c c15Case) {
 	lr := p.rigFor(c.Cfg)
 	p.skips.set(key, c.Skip)
 	defer p.skips.set(key, false)
+	if c.Skip && c.Cfg.Logger == "marbl" && !p.e.flushMarbl() {
+		inconc("marbl stream did not flush the sentinel within the watchdog")
+		return
+	}
 	frameFrom := p.e.sink.count()
 
 	do := func(g *msgx.Rig) (*msgx.Result, error) {
